@@ -196,7 +196,7 @@ def correspondence(ck, binpath, n_traces, n_events):
     if rc != 0:
         ck.tie_broken("harness c01 events failed", err[-2000:])
         return
-    ecases = [json.loads(l) for l in out.splitlines() if l.strip()]
+    ecases = [json.loads(l) for l in jlines(out) if l.strip()]
     terms = [bcase_to_coq(c["events"], c["tree"]) for c in ecases]
     failing = ck.coq_failing("corr_events", terms, ["EV.C01.Model", "EV.C01.Corr"], check_fn="check_build", case_type="bcase", per_shard=100)
     npanic = 0
@@ -217,7 +217,7 @@ def correspondence(ck, binpath, n_traces, n_events):
     if rc != 0:
         ck.tie_broken("harness c01 corr failed", err[-2000:])
         return
-    cases = [json.loads(l) for l in out.splitlines() if l.strip()]
+    cases = [json.loads(l) for l in jlines(out) if l.strip()]
     terms = [bcase_to_coq(c["events"], c["tree"]) for c in cases]
     failing = ck.coq_failing("corr_traces", terms, ["EV.C01.Model", "EV.C01.Corr"], check_fn="check_build", case_type="bcase", per_shard=60)
     for i in (failing or []):
@@ -302,7 +302,7 @@ def search(ck, binpath, n):
     if rc != 0:
         ck.tie_broken("harness c01 search failed", err[-2000:])
         return
-    for l in out.splitlines():
+    for l in jlines(out):
         if not l.strip():
             continue
         v = json.loads(l)
@@ -324,7 +324,7 @@ def replay(ck, binpath, path):
                 continue
             args = ["one", "--text-json", json.dumps(t)]
             rc, out, err = ck.run_bin(binpath, args)
-            for l in out.splitlines():
+            for l in jlines(out):
                 if l.strip():
                     vv = json.loads(l)
                     ck.violation(vv["signature"], vv["what"], {"text": vv["text"], "shrunk": vv["shrunk"], "level": vv["level"], "doc": vv["doc"]})
